@@ -57,6 +57,22 @@ def run(run):
                             continue
                         if max(tr_.flops, tr_.write, tr_.peak_size) >= 2**31:
                             continue
+                        # a derived tree (not in place) is scored with the same arguments, then the original again: its
+                        # estimate is its own
+                        if rng.random() < 0.15 and net.N >= 3:
+                            try:
+                                t2 = tree.subtree_reconfigure(subtree_size=3, maxiter=2, seed=rng.randrange(100))
+                                t2.compressed_contract_stats(chi=chi, order=o, compress_late=late)
+                                again = tree.compressed_contract_stats(chi=chi, order=o, compress_late=late)
+                                if (again.flops, again.max_size, again.peak_size, again.write) != \
+                                        (tr_.flops, tr_.max_size, tr_.peak_size, tr_.write):
+                                    run.violation(f"compressed estimate of a tree changes after a tree DERIVED from it (not in place) was "
+                                                  f"scored: {(tr_.flops, tr_.max_size, tr_.peak_size, tr_.write)} -> "
+                                                  f"{(again.flops, again.max_size, again.peak_size, again.write)} eq={net.eq()} ssa={ssa} "
+                                                  f"chi={chi} late={late} order={oname}", d, tags={"estimate", "aliasing"})
+                            except Exception as e:
+                                run.violation(f"compressed estimate after deriving a tree raised {core.exc_text(e)} eq={net.eq()}", d,
+                                              tags={"raised", "aliasing"})
                         cases.append({"net": net.tla(), "ch": observe.children_of(tree), "seq": seq, "chi": chi, "late": late,
                                       "uncapped": chi == HUGE,
                                       "rep": {"flops": int(tr_.flops), "maxsize": int(tr_.max_size), "peak": int(tr_.peak_size),
